@@ -374,6 +374,8 @@ pub enum Path {
     New,
     From,
     Iter,
+    /// collect from an iterator without an exact size hint (`filter`)
+    IterX,
     Default,
 }
 
@@ -397,6 +399,10 @@ where
         Path::From => (W::from(v), vec_bytes),
         Path::Iter => {
             let t = v.iter().copied().collect::<W>();
+            (t, 0)
+        }
+        Path::IterX => {
+            let t = v.iter().copied().filter(|_| true).collect::<W>();
             (t, 0)
         }
         Path::Default => (W::default(), 0),
@@ -775,7 +781,35 @@ impl Interp {
                 let h = live_bytes() - before;
                 (Slot::Qv(q, h), ok)
             }
+            // QVector through the other construction paths (the retained heap is measured around the whole
+            // construction): `qvx` collects from an iterator without an exact size hint, `qvpush <cap|-> …` pushes
+            // into a builder made by `new()` / `with_capacity(cap)`, `qvext <cap|-> …` extends it in chunks
+            "qvx" => {
+                let vals: Vec<i128> = args.iter().map(|x| x.parse().unwrap()).collect();
+                let before = live_bytes();
+                let q: QVector = vals.iter().map(|&x| x as i64).filter(|_| true).collect();
+                let h = live_bytes() - before;
+                (Slot::Qv(q, h), ok)
+            }
+            "qvpush" | "qvext" => {
+                let vals: Vec<i128> = args[1..].iter().map(|x| x.parse().unwrap()).collect();
+                let before = live_bytes();
+                let mut b = if args[0] == "-" { QVectorBuilder::new() } else { QVectorBuilder::with_capacity(args[0].parse().unwrap()) };
+                if kind == "qvpush" {
+                    for &x in &vals {
+                        b.push(x as u8);
+                    }
+                } else {
+                    for ch in vals.chunks(97) {
+                        b.extend(ch.iter().map(|&x| x as i64).filter(|_| true));
+                    }
+                }
+                let q = b.build();
+                let h = live_bytes() - before;
+                (Slot::Qv(q, h), ok)
+            }
             "qvb" => (Slot::Qvb(QVectorBuilder::new()), ok),
+            "qvbcap" => (Slot::Qvb(QVectorBuilder::with_capacity(args[0].parse().unwrap())), ok),
             "rsq" | "rsqdefault" => {
                 let b: usize = args[0].parse().unwrap();
                 let vals: Vec<i128> = args[1..].iter().map(|x| x.parse().unwrap()).collect();
@@ -796,6 +830,14 @@ impl Interp {
                                 "fromqv" => {
                                     let q = qv_from_typed("i64", &vals);
                                     <$t>::from(q)
+                                }
+                                "inexact" => vals.iter().map(|&x| x as i64).filter(|_| true).collect::<$t>(),
+                                "frombuilder" => {
+                                    let mut b = QVectorBuilder::new();
+                                    for &x in &vals {
+                                        b.push(x as u8);
+                                    }
+                                    <$t>::from(b.build())
                                 }
                                 _ => vals.iter().map(|&x| x as i64).collect::<$t>(),
                             }
@@ -1001,6 +1043,7 @@ impl Interp {
                 let path = match variant {
                     "from" => Path::From,
                     "iter" => Path::Iter,
+                    "iterx" => Path::IterX,
                     "default" => Path::Default,
                     _ => Path::New,
                 };
